@@ -228,6 +228,14 @@ def run(res):
             P.fail(res, "builder::build_str", text, "code=%s eeprom=%s ram_filling=%d" % (exp[1][:80], exp[2][:40], exp[3]), obs[text][0][:120], "rejected")
         elif (a["code"], a["eeprom"], a["fill"]) != (exp[1], exp[2], exp[3]):
             P.fail(res, "builder::build_str", text, "code=%s eeprom=%s ram_filling=%d" % (exp[1], exp[2], exp[3]), obs[text][0][:200], "layout")
+    # macro bodies that begin or end with .org / a segment directive: the expansion lands where the pasted body would
+    from . import c09
+    mp = c09.segment_first_pairs()
+    mobs = P.correspond(res, vh, exe, [a for a, _ in mp] + [b for _, b in mp], "macros whose body begins or ends with a segment directive or .org")
+    for a, b in mp:
+        x, y = progrun.parse_obs(mobs[a][0]), progrun.parse_obs(mobs[b][0])
+        if y["kind"] == "OK" and (x["kind"], x.get("code"), x.get("eeprom"), x.get("fill")) != ("OK", y["code"], y["eeprom"], y["fill"]):
+            P.fail(res, "builder::build_str", a, "the images of the pasted body: " + mobs[b][0][:100], mobs[a][0][:100], "macro-segment-layout")
     # probes of the open known findings (known_findings.json): reported as KNOWN-FINDING while they persist
     probes = [(".dseg\n.equ n = 3\nv: .byte n\nw: .byte 1\n.cseg\n .dw w\n", ("OK", "6300", "", 4), "byte-nonliteral"),
               ("nop\nnop\n.org 0\nnop\n", ("ERR",), "org-zero")]
